@@ -165,6 +165,9 @@ func (e *Engine) Explore(entry *ssa.Function, cfg Config) *HarnessResult {
 			}
 			for _, v := range m.viols {
 				k := v.Kind + "|" + v.Msg + "|" + v.Site + "|" + v.Known
+				if v.Kind == "panic" {
+					k = v.Kind + "|" + v.Site // run-time error texts carry concrete indices: one report per site
+				}
 				if !violKeys[k] {
 					violKeys[k] = true
 					res.Violations = append(res.Violations, v)
